@@ -184,6 +184,21 @@ theorem exec_wstepR {w w' : World} {op : Op} (h : w.exec op = .ok w') (hop : op.
     simp only [Op.ids, List.all_append, Bool.and_eq_true, List.all_eq_true, decide_eq_true_eq] at this
     exact this.2 s hs
 
+  | streamPort k xs i s =>
+    simp only [World.exec] at h
+    refine (streamPort_wstep h).weaken (fun hc _ => ?_)
+    have := hc.1
+    simp [Op.ids] at this
+    exact this.1
+  | sliceI k u a b items =>
+    simp only [World.exec] at h
+    refine (on_wstepR (fun _ => setStreams_step) h).weaken (fun hc _ => ?_)
+    exact ⟨by simpa using all_filterMap_id hc.1, by simpa [Op.units] using hc.2⟩
+  | insertBack k u j s =>
+    simp only [World.exec] at h
+    refine (on_wstepR (fun _ => insertAt_step) h).weaken (fun hc _ => ?_)
+    simpa [Op.ids, Op.units] using hc
+
 theorem exec_wstep {w w' : World} {op : Op} (h : w.exec op = .ok w') :
     WStep (op.ids.all (· < w.nS) = true ∧ op.units.all (· < w.nU) = true) w w' := by
   by_cases hop : op.creates = false
@@ -237,5 +252,38 @@ theorem remove_spec {nU : Nat} {w w' : SW} {u s : Nat} (hsc : Sc nU w) (h : w.re
     · simp [Side.setLst]
     · simp [Side.setLst, hne]
     · simp [Side.setLst, hget]
+
+/-- `seq[i] = None` inside the list: port `i` gets a brand-new placeholder pointing at the unit, its former
+occupant is undocked, no other port changes. -/
+theorem setNone_spec {nU : Nat} {w w' : SW} {u i : Nat} (hsc : Sc nU w) (hi : i < (w.sd.lst u).length)
+    (h : (w.newMissing u).1.setStream u i (w.newMissing u).2 = .ok w') :
+    w'.sd.lst u = (w.sd.lst u).set i w.next ∧ w'.next = w.next + 1 ∧
+      w'.sd.loc w.next = some u ∧ w'.sd.loc ((w.sd.lst u)[i]) = none := by
+  have hi' : i < ((w.newMissing u).1.sd.lst u).length := hi
+  unfold SW.setStream at h
+  simp only [hi', dite_true] at h
+  obtain ⟨w2, hr, h⟩ := bind_ok.mp h
+  cases h
+  generalize hx : ((w.newMissing u).fst.sd.lst u)[i] = x at hr
+  have hxe : (w.sd.lst u)[i] = x := hx
+  have hxm : x ∈ w.sd.lst u := hxe ▸ List.getElem_mem hi
+  have hne : w.next ≠ x := by have := hsc.lst_lt u _ hxm; omega
+  simp only [SW.redock, SW.undock, SW.newMissing, Side.setLoc] at hr
+  simp only [hne, if_false, if_true] at hr
+  cases hr
+  refine ⟨?_, rfl, ?_, ?_⟩
+  · simp [Side.setLst, SW.newMissing, Side.setLoc]
+  · simp [Side.setLst, hne]
+  · simp only [Side.setLst]
+    exact if_pos hxe
+
+/-- `seq.empty()` / `seq.clear()` on a fixed-size list: every port holds a brand-new placeholder. -/
+theorem refill_lst (w : SW) (u n : Nat) :
+    ∀ x ∈ (w.refill u n).sd.lst u, w.next ≤ x := by
+  have M := newMissings_spec (w.undockAll (w.sd.lst u)) u n
+  intro x hx
+  simp only [SW.refill, setLst_lst_same] at hx
+  have := (M.mem_iff x).mp hx
+  simpa using this.1
 
 end ThermoVerif.Network
